@@ -6,6 +6,7 @@ import XV.Lemmas.InvList
 import XV.Lemmas.InvLive
 import XV.Lemmas.InvLedger
 import XV.Lemmas.PlayFull
+import XV.Lemmas.PlayKeysRun
 /-!
 C02 — token conservation: supply changes only by coinbase, every token is in one place.
 Theorems about the UTXO table of the L1 chain model. `sumU` is the sum of all rows of table "U";
@@ -2949,5 +2950,409 @@ example :
     (play e s 0 ⟨11, some 10, 1, [9, 7, 8], "miner"⟩).2 = .utxo ∧ parentMissing e s.pool [] [9, 7, 8] = false ∧
     (play e s 0 ⟨11, some 10, 1, [9, 6, 5], "miner"⟩).2 = .ok ∧
     (play e s 0 ⟨11, some 10, 1, [9, 8, 7], "miner"⟩).2 = .ok := by decide
+
+-- ================================================================ key versions: no double supersede at any reachable state
+
+/-- **the key-version sibling of `Ledger`**, over the same ghost log: the key tables are completely explained by the
+confirmed log `C` followed by the pool (`LedK`, `XV.Lemmas.PlayKeys`) — every current version and every delete marker
+was written by an applied transaction, every version written by an applied transaction is current or was superseded by an
+applied transaction, a superseded version is not current, and **no two applied transactions supersede the same version
+of a key** (a transaction supersedes version `v` of key `k` when it reads `k@v` and writes `k`, `XV.C03.supersedes`). -/
+def LedgerK (e : Env) (s : St) (C : List Nat) : Prop := LedK e s (C ++ s.pool)
+
+/-- both reachable-state invariants over one ghost log -/
+def LedgerAll (e : Env) (s : St) (C : List Nat) : Prop := Ledger e s C ∧ LedgerK e s C
+
+theorem LedgerK_genesis (e : Env) : LedgerK e {} [] := LedK_empty e {} rfl rfl
+
+theorem LedgerAll_genesis (e : Env) : LedgerAll e {} [] := ⟨Ledger_genesis e, LedgerK_genesis e⟩
+
+/-- **no double supersede**: what the key ledger invariant gives at every reachable state — two distinct applied
+transactions (confirmed or pending) never supersede the same version of a key; a version superseded by an applied
+transaction is not current (it cannot be read, nor superseded again, by a transaction admitted now); every current
+version was written by an applied transaction -/
+theorem no_double_supersede {e : Env} {s : St} {C : List Nat} (h : LedgerK e s C) :
+    (∀ i ∈ C ++ s.pool, ∀ j ∈ C ++ s.pool, i ≠ j →
+      ∀ k v, XV.C03.supersedes (e.tx i) k v → ¬ XV.C03.supersedes (e.tx j) k v) ∧
+    (∀ i ∈ C ++ s.pool, ∀ k v, XV.C03.supersedes (e.tx i) k v → curVer s k ≠ v) ∧
+    (∀ k v, curVer s k = some v → v.1 ∈ C ++ s.pool) :=
+  ⟨h.disjointK, h.versGone, fun k v hv => (h.curLogged k v hv).1⟩
+
+/-- **`doTx` keeps the key ledger invariant.** No causality hypothesis (`XV.C03.Causal` of `no_double_spend_pool` is a
+consequence here): only that `e.tx i` has id `i`, that a confirmed transaction is not submitted again and that the
+transaction writes each key once — and only for an admitted transaction. -/
+theorem doTx_LedgerK (e : Env) (s : St) (lh : Int) (i : Nat) (C : List Nat) (h : LedgerK e s C)
+    (hyp : (doTx e s lh i).2 = .ok → (e.tx i).id = i ∧ i ∉ C ∧ ((e.tx i).kout.map (·.key)).Nodup) :
+    LedgerK e (doTx e s lh i).1 C := by
+  by_cases hok : (doTx e s lh i).2 = .ok
+  · obtain ⟨hnp, hadm, hs'⟩ := XV.C03.doTx_ok e s lh i hok
+    obtain ⟨hid, hiC, hkw⟩ := hyp hok
+    obtain ⟨_, _, hread, hwr⟩ := XV.C03.admit_sound s lh (e.tx i) hadm
+    have hnot : i ∉ C ++ s.pool := by
+      intro hm
+      rcases List.mem_append.mp hm with hm | hm
+      · exact hiC hm
+      · exact hnp hm
+    have := LedK_add e s (C ++ s.pool) i h hnot hid hkw hread hwr
+    rw [hs']
+    unfold LedgerK
+    simp only
+    rw [← List.append_assoc]
+    exact LedK.congr this rfl rfl
+  · rw [XV.C05.doTx_fail_noop e s lh i hok]; exact h
+
+/-- **`play` keeps the key ledger invariant**, with no block-validity hypothesis (see `play_LedK`): block ids pairwise
+distinct, `e.tx i` has id `i`, none already confirmed, one write per key -/
+theorem play_LedgerK (e : Env) (s : St) (lh : Int) (b : Block) (C : List Nat) (h : LedgerK e s C)
+    (hnd : b.txs.Nodup) (hid : ∀ i ∈ b.txs, (e.tx i).id = i) (hnewC : ∀ i ∈ b.txs, i ∉ C)
+    (hkw : ∀ i ∈ b.txs, ((e.tx i).kout.map (·.key)).Nodup) :
+    LedgerK e (play e s lh b).1 (if (play e s lh b).2 = .ok then C ++ b.txs else C) :=
+  (play_LedK e s lh b C h hnd hid hnewC hkw).1
+
+/-- **the block order for key reads follows from acceptance** (the key half of `play_block_order`): in a block accepted
+by `play` from a state satisfying the key ledger invariant, no transaction read a key version written by a transaction
+that stands later in the block. A read of a version of a later *pending* transaction is refused by `parentMissing`
+(`play_order_pending_kin`, unconditional); a read of a version of a later transaction that is *not pending* makes
+`admitTx` fail (`verifyRW`): the version is not current, because every current version was written by a logged
+transaction. -/
+theorem play_block_order_kin (e : Env) (s : St) (lh : Int) (b : Block) (C : List Nat) (h : LedgerK e s C)
+    (hok : (play e s lh b).2 = .ok)
+    (hnd : b.txs.Nodup) (hid : ∀ i ∈ b.txs, (e.tx i).id = i) (hnewC : ∀ i ∈ b.txs, i ∉ C)
+    (hkw : ∀ i ∈ b.txs, ((e.tx i).kout.map (·.key)).Nodup) :
+    b.txs.Pairwise (fun a c => ∀ ki ∈ (e.tx a).kin, ∀ v, ki.ver = some v → v.1 ≠ c) := by
+  apply List.Pairwise.imp _ ((play_LedK e s lh b C h hnd hid hnewC hkw).2 hok)
+  intro a c hac ki hki v hv hvc
+  exact hac ⟨ki, hki, v, hv, hvc⟩
+
+/-- **`playForMiner` keeps the key ledger invariant** (the miner's own block: the award plus pending transactions, packed
+in an order in which no transaction read a version written by a later one, with the pending writers of what they read) -/
+theorem playForMiner_LedgerK (e : Env) (s : St) (lh : Int) (b : Block) (C : List Nat) (h : LedgerK e s C)
+    (hnd : b.txs.Nodup) (hid : ∀ i ∈ b.txs, (e.tx i).id = i) (hnewC : ∀ i ∈ b.txs, i ∉ C)
+    (hsub : ∀ i ∈ b.txs, (e.tx i).coinbase = false → i ∈ s.pool)
+    (hpnc : ∀ i ∈ s.pool, (e.tx i).coinbase = false)
+    (hkw : ∀ i ∈ b.txs, ((e.tx i).kout.map (·.key)).Nodup)
+    (hparents : ∀ i ∈ b.txs, ∀ p ∈ s.pool, citesK e i p → p ∈ b.txs)
+    (hord : b.txs.Pairwise (fun a c => ¬ citesK e a c)) :
+    LedgerK e (playForMiner e s lh b).1 (if (playForMiner e s lh b).2 = .ok then C ++ b.txs else C) := by
+  unfold playForMiner
+  by_cases h1 : b.pre ≠ some s.pointer
+  · rw [if_pos h1]; simp only [reduceCtorEq, ↓reduceIte]; exact h
+  · rw [if_neg h1]
+    cases hgo : playForMiner.go e lh b b.txs s with
+    | none => simp only [reduceCtorEq, ↓reduceIte]; exact h
+    | some s2 =>
+      simp only [↓reduceIte]
+      have hrun := playForMiner_go_run e lh b b.txs s s2 hgo
+      have := (blockRun_LedK e lh b.prop _ b.txs s s2 C s.pool hrun h hnd hid
+        (fun i hi => by
+          constructor
+          · intro hp; exact hsub i hi (by simpa using hp)
+          · intro hp; simp [hpnc i hp])
+        hnewC
+        (fun i hi _ => hkw i hi)
+        hparents (List.Pairwise.imp (S := fun a c => c ∈ s.pool → ¬ citesK e a c) (fun hab _ => hab) hord)).1
+      exact LedK.congr this rfl rfl
+
+/-- **undoing the tip block keeps the key ledger invariant** (empty pool) -/
+theorem undoBlock_LedgerK (e : Env) (s : St) (b : Block) (prune : Bool) (C0 : List Nat)
+    (h : LedgerK e s (C0 ++ b.txs)) (hp : s.pool = []) :
+    LedgerK e (undoBlock e s b prune) C0 ∧ (undoBlock e s b prune).pool = [] := by
+  unfold LedgerK at h
+  rw [hp, List.append_nil] at h
+  have hrev : C0 ++ b.txs = C0 ++ b.txs.reverse.reverse := by rw [List.reverse_reverse]
+  rw [hrev] at h
+  have hfold := undoConfFold_LedK e b.txs.reverse s C0 h
+  have hpool := undoFold_pool e b.txs.reverse s
+  unfold undoBlock LedgerK
+  simp only
+  rw [hpool, hp, List.append_nil]
+  exact ⟨LedK.congr hfold rfl rfl, rfl⟩
+
+/-- **applying a block during a walk keeps the key ledger invariant** (empty pool) -/
+theorem todoBlock_LedgerK (e : Env) (s s' : St) (lh : Int) (b : Block) (C : List Nat)
+    (hs : todoBlock e s lh b = some s') (h : LedgerK e s C) (hp : s.pool = [])
+    (hnd : b.txs.Nodup) (hid : ∀ i ∈ b.txs, (e.tx i).id = i) (hnewC : ∀ i ∈ b.txs, i ∉ C)
+    (hkw : ∀ i ∈ b.txs, ((e.tx i).kout.map (·.key)).Nodup) :
+    LedgerK e s' (C ++ b.txs) ∧ s'.pool = [] := by
+  unfold todoBlock at hs
+  split at hs
+  · cases hs
+  · split at hs
+    · rename_i s2 happ
+      simp only [Option.some.injEq] at hs
+      subst hs
+      have hrun := applyBlockTxs_run e lh b.prop [] b.txs s s2 happ
+      obtain ⟨fpool, _, _⟩ := blockRun_frame _ _ _ _ _ _ _ hrun
+      unfold LedgerK at h
+      rw [hp] at h
+      have := (blockRun_LedK e lh b.prop _ b.txs s s2 C [] hrun h hnd hid
+        (fun i _ => by simp) hnewC (fun i hi _ => hkw i hi)
+        (fun i _ p hpm _ => by cases hpm)
+        (List.Pairwise.imp_of_mem (R := fun _ _ => True) (fun _ _ _ hb => by cases hb)
+          (List.pairwise_of_forall (fun _ _ => trivial)))).1
+      have hp2 : s2.pool = [] := by rw [fpool, hp]
+      unfold LedgerK
+      simp only [hp2]
+      simp only [List.filter_nil] at this
+      exact ⟨LedK.congr this rfl rfl, trivial⟩
+    · cases hs
+
+/-- a confirmed transaction that has a token input is not admitted again: its inputs are spent -/
+theorem Ledger.not_confirmed_of_admitted {e : Env} {s : St} {C : List Nat} (h : Ledger e s C) (lh : Int) (i : Nat)
+    (hok : (doTx e s lh i).2 = .ok) (hins : i ∈ C → (e.tx i).ins ≠ []) : i ∉ C := by
+  intro hiC
+  obtain ⟨r, hr⟩ := List.exists_mem_of_ne_nil _ (hins hiC)
+  obtain ⟨_, hadm, _⟩ := XV.C03.doTx_ok e s lh i hok
+  obtain ⟨u, hu, _⟩ := (XV.C03.admit_sound s lh (e.tx i) hadm).1 r hr
+  rw [h.led.insSpent i (List.mem_append_left _ hiC) r hr] at hu
+  cases hu
+
+/-- `doTx` keeps both invariants -/
+theorem doTx_LedgerAll (e : Env) (s : St) (lh : Int) (i : Nat) (C : List Nat) (h : LedgerAll e s C)
+    (hyp : (doTx e s lh i).2 = .ok → (e.tx i).id = i ∧ (i ∈ C → (e.tx i).ins ≠ []) ∧ (e.tx i).coinbase = false ∧
+      ((e.tx i).kout.map (·.key)).Nodup) :
+    LedgerAll e (doTx e s lh i).1 C :=
+  ⟨doTx_Ledger_of_inputs e s lh i C h.1 (fun hok => ⟨(hyp hok).1, (hyp hok).2.1, (hyp hok).2.2.1⟩),
+   doTx_LedgerK e s lh i C h.2 (fun hok =>
+     ⟨(hyp hok).1, h.1.not_confirmed_of_admitted lh i hok (hyp hok).2.1, (hyp hok).2.2.2⟩)⟩
+
+/-- `play` keeps both invariants, with no block-validity hypothesis -/
+theorem play_LedgerAll (e : Env) (s : St) (lh : Int) (b : Block) (C : List Nat) (h : LedgerAll e s C)
+    (hnd : b.txs.Nodup) (hid : ∀ i ∈ b.txs, (e.tx i).id = i) (hnewC : ∀ i ∈ b.txs, i ∉ C)
+    (haward : ∀ i ∈ b.txs, i ∉ s.pool → (e.tx i).coinbase = true → (e.tx i).ins = [] ∧ feeOf (e.tx i).outs = 0)
+    (hkw : ∀ i ∈ b.txs, ((e.tx i).kout.map (·.key)).Nodup) :
+    LedgerAll e (play e s lh b).1 (if (play e s lh b).2 = .ok then C ++ b.txs else C) :=
+  ⟨play_Ledger_full e s lh b C h.1 hnd hid hnewC haward, play_LedgerK e s lh b C h.2 hnd hid hnewC hkw⟩
+
+theorem undoAll_LedgerAll (e : Env) (prune : Bool) (undo : List Nat) (st : St) (C0 : List Nat)
+    (h : LedgerAll e st (C0 ++ blockTxs e undo.reverse)) (hp : st.pool = []) :
+    ∃ C', LedgerAll e (walk.undoAll e prune undo st).1 C' ∧ (walk.undoAll e prune undo st).1.pool = [] ∧
+      ((walk.undoAll e prune undo st).2 = true → C' = C0) := by
+  induction undo generalizing st with
+  | nil =>
+    unfold walk.undoAll
+    exact ⟨C0, by simpa [blockTxs] using h, hp, fun _ => rfl⟩
+  | cons bi rest ih =>
+    unfold walk.undoAll
+    simp only
+    split
+    · exact ⟨_, h, hp, by simp⟩
+    · rw [List.reverse_cons, blockTxs_snoc, ← List.append_assoc] at h
+      obtain ⟨h1, h2⟩ := undoBlock_Ledger e st (e.block bi) prune _ h.1 hp
+      obtain ⟨k1, _⟩ := undoBlock_LedgerK e st (e.block bi) prune _ h.2 hp
+      exact ih _ ⟨h1, k1⟩ h2
+
+theorem todoAll_LedgerAll (e : Env) (lh : Int) (todo : List Nat) (st : St) (C : List Nat)
+    (h : LedgerAll e st C) (hp : st.pool = [])
+    (hnd : (C ++ blockTxs e todo).Nodup)
+    (hblk : ∀ bi ∈ todo, (∀ i ∈ (e.block bi).txs, (e.tx i).id = i) ∧
+      (∀ i ∈ (e.block bi).txs, (e.tx i).coinbase = true → (e.tx i).ins = [] ∧ feeOf (e.tx i).outs = 0) ∧
+      (∀ i ∈ (e.block bi).txs, ((e.tx i).kout.map (·.key)).Nodup)) :
+    ∃ C', LedgerAll e (walk.todoAll e lh todo st).1 C' ∧ (walk.todoAll e lh todo st).1.pool = [] ∧
+      ((walk.todoAll e lh todo st).2 = true → C' = C ++ blockTxs e todo) := by
+  induction todo generalizing st C with
+  | nil =>
+    unfold walk.todoAll
+    exact ⟨C, h, hp, fun _ => by simp [blockTxs]⟩
+  | cons bi rest ih =>
+    unfold walk.todoAll
+    rw [blockTxs_cons] at hnd ⊢
+    obtain ⟨b1, b2, b3⟩ := hblk bi List.mem_cons_self
+    cases htb : todoBlock e st lh (e.block bi) with
+    | none => exact ⟨C, h, hp, by simp⟩
+    | some st' =>
+      simp only
+      obtain ⟨hndC, hndR, hdis⟩ := List.nodup_append.mp hnd
+      have hnewC : ∀ i ∈ (e.block bi).txs, i ∉ C := fun i hi hc => hdis i hc i (List.mem_append_left _ hi) rfl
+      obtain ⟨t1, t2⟩ := todoBlock_Ledger e st st' lh (e.block bi) C htb h.1 hp
+        (List.nodup_append.mp hndR).1 b1 hnewC b2
+      obtain ⟨k1, _⟩ := todoBlock_LedgerK e st st' lh (e.block bi) C htb h.2 hp
+        (List.nodup_append.mp hndR).1 b1 hnewC b3
+      obtain ⟨C', c1, c2, c3⟩ := ih st' (C ++ (e.block bi).txs) ⟨t1, k1⟩ t2 (by rw [List.append_assoc]; exact hnd)
+        (fun bj hbj => hblk bj (List.mem_cons_of_mem _ hbj))
+      exact ⟨C', c1, c2, fun hok => by rw [c3 hok, List.append_assoc]⟩
+
+theorem readmit_LedgerAll (e : Env) (lh : Int) (pool : List Nat) (st : St) (C : List Nat) (h : LedgerAll e st C)
+    (hyp : ∀ i ∈ pool, (e.tx i).id = i ∧ (i ∈ C → (e.tx i).ins ≠ []) ∧ (e.tx i).coinbase = false ∧
+      ((e.tx i).kout.map (·.key)).Nodup) :
+    LedgerAll e (pool.foldl (fun st i => (doTx e st lh i).1) st) C := by
+  induction pool generalizing st with
+  | nil => exact h
+  | cons i rest ih =>
+    simp only [List.foldl_cons]
+    apply ih _ _ (fun j hj => hyp j (List.mem_cons_of_mem _ hj))
+    exact doTx_LedgerAll e st lh i C h (fun _ => hyp i List.mem_cons_self)
+
+/-- **`walk` keeps both ledger invariants, over one ghost log**, whatever its outcome: `walk_Ledger` with the key tables.
+The pool is rolled back newest first (nobody read a version written later, so each transaction is undone after its
+readers), the blocks that end the confirmed log are undone, the blocks of the new branch are applied (`hblk` now also asks
+one write per key), the pool is re-submitted. -/
+theorem walk_LedgerK (e : Env) (s : St) (lh : Int) (dest : Nat) (prune : Bool) (C C0 : List Nat)
+    (h : LedgerAll e s C)
+    (hundo : C = C0 ++ blockTxs e (undoTodo e s.pointer dest).1.reverse)
+    (hnd : (C0 ++ blockTxs e (undoTodo e s.pointer dest).2).Nodup)
+    (hblk : ∀ bi ∈ (undoTodo e s.pointer dest).2, (∀ i ∈ (e.block bi).txs, (e.tx i).id = i) ∧
+      (∀ i ∈ (e.block bi).txs, (e.tx i).coinbase = true → (e.tx i).ins = [] ∧ feeOf (e.tx i).outs = 0) ∧
+      (∀ i ∈ (e.block bi).txs, ((e.tx i).kout.map (·.key)).Nodup))
+    (hre : ∀ i ∈ s.pool, i ∈ C0 ++ blockTxs e (undoTodo e s.pointer dest).2 → (e.tx i).ins ≠ []) :
+    ∃ C', LedgerAll e (walk e s lh dest prune).1 C' ∧
+      ((walk e s lh dest prune).2 = true → C' = C0 ++ blockTxs e (undoTodo e s.pointer dest).2) := by
+  rw [walk_shape]
+  simp only
+  -- step 1: roll the pool back
+  have hl := h.1.led
+  have hk := h.2
+  obtain ⟨_, hndP, hCP⟩ := List.nodup_append.mp hl.nodupA
+  obtain ⟨_, hoP, _⟩ := List.pairwise_append.mp hl.order
+  obtain ⟨_, hkP, hkCP⟩ := List.pairwise_append.mp hk.orderK
+  have hndr : s.pool.reverse.Nodup := by
+    unfold List.Nodup
+    rw [List.pairwise_reverse]
+    exact List.Pairwise.imp (fun h => fun e2 => h e2.symm) hndP
+  have hfold := undoFold_LedSum e s.pool.reverse s C s.pool h.1 hndr (fun t ht => List.mem_reverse.mp ht)
+    (by rw [List.pairwise_reverse]; exact hoP) (fun t _ j hj _ => List.mem_reverse.mpr hj)
+  have hnil : s.pool.filter (fun x => !s.pool.reverse.contains x) = [] := by
+    apply List.filter_eq_nil_iff.mpr; intro a ha; simp [ha]
+  rw [hnil] at hfold
+  have hfoldK := undoFold_LedK e s.pool.reverse s (C ++ s.pool) hk hndr
+    (fun t ht => List.mem_append_right _ (List.mem_reverse.mp ht))
+    (by rw [List.pairwise_reverse]; exact hkP)
+    (fun t ht j hj hc => by
+      rcases List.mem_append.mp hj with hjC | hjP
+      · exact absurd hc (hkCP j hjC t (List.mem_reverse.mp ht))
+      · exact List.mem_reverse.mpr hjP)
+  have hfilA : (C ++ s.pool).filter (fun x => !s.pool.reverse.contains x) = C ++ [] := by
+    rw [List.filter_append, hnil]
+    congr 1
+    apply List.filter_eq_self.mpr
+    intro a ha
+    have hap : a ∉ s.pool := fun hm => hCP a ha a hm rfl
+    simp [hap]
+  rw [hfilA] at hfoldK
+  have h0 : LedgerAll e { (s.pool.reverse.foldl (fun st i => undoTx e st (e.tx i)) s) with pool := [] }
+      (C0 ++ blockTxs e (undoTodo e s.pointer dest).1.reverse) := by
+    rw [← hundo]; exact ⟨LedSum.congr hfold rfl rfl, LedK.congr hfoldK rfl rfl⟩
+  -- step 2: undo blocks
+  obtain ⟨C1, u1, u2, u3⟩ := undoAll_LedgerAll e prune (undoTodo e s.pointer dest).1 _ C0 h0 rfl
+  cases hr1 : (walk.undoAll e prune (undoTodo e s.pointer dest).1
+      { (s.pool.reverse.foldl (fun st i => undoTx e st (e.tx i)) s) with pool := [] }).2 with
+  | false => exact ⟨C1, by simpa [hr1] using u1, by simp [hr1]⟩
+  | true =>
+    simp only [hr1, Bool.not_true, Bool.false_eq_true, ↓reduceIte]
+    have hC1 := u3 hr1
+    rw [hC1] at u1
+    -- step 3: apply blocks
+    obtain ⟨C2, t1, t2, t3⟩ := todoAll_LedgerAll e lh (undoTodo e s.pointer dest).2 _ C0 u1 u2 hnd hblk
+    cases hr2 : (walk.todoAll e lh (undoTodo e s.pointer dest).2
+        (walk.undoAll e prune (undoTodo e s.pointer dest).1
+          { (s.pool.reverse.foldl (fun st i => undoTx e st (e.tx i)) s) with pool := [] }).1).2 with
+    | false => exact ⟨C2, by simpa [hr2] using t1, by simp [hr2]⟩
+    | true =>
+      simp only [hr2, Bool.not_true, Bool.false_eq_true, ↓reduceIte]
+      have hC2 := t3 hr2
+      rw [hC2] at t1
+      -- step 4: re-submit the pool
+      refine ⟨_, readmit_LedgerAll e lh s.pool _ _ t1 ?_, fun _ => rfl⟩
+      intro i hi
+      exact ⟨hl.idEq i (List.mem_append_right _ hi), hre i hi, h.1.poolNonCoinbase i hi,
+        (hk.wf i (List.mem_append_right _ hi)).koutNodup⟩
+
+-- non-vacuity of the key ledger theorems: a whole history with key reads and writes. Transaction 1 only READS "k" (never
+-- written), 2 reads the same version and WRITES "k", 3 spends an output of 2, 4 is independent, 5 reads "k" at the
+-- version written by 2 and writes it again (no tokens). Blocks: 10 = [100 (genesis)], 11 = [9 (award), 2] on 10 — the
+-- overwriter without its pending reader: 1 is evicted, 2 and 3 are rolled back, 2 is applied again —, 12 = [8 (award), 1]
+-- on 10 (a sibling of 11), 13 = [9, 1, 2] on 10 (what the miner would pack).
+--   submissions 1 2 3 4, block 11 played (pool [4]), submission 5 (pool [4, 5]: 2 superseded "k"@never-written, 5
+--   supersedes "k"@(2,0)), then a walk to 12: pool rolled back, block 11 undone ("k" never written again), block 12
+--   applied, 4 re-admitted, 5 refused (the version it read is gone). Both invariants hold after every step, over the
+--   ghost logs [100], [100, 9, 2], [100, 8, 1].
+private def kEnv : Env := {
+  txs := [
+    (100, ⟨100, true, [], [⟨"u0", 5, 0⟩, ⟨"u0", 7, 0⟩, ⟨"u0", 4, 0⟩], [], []⟩),
+    (1, ⟨1, false, [⟨100, 0, "u0", 5, 0, false⟩], [⟨"u1", 4, 0⟩, ⟨"$", 1, 0⟩], [⟨"k", none⟩], []⟩),
+    (2, ⟨2, false, [⟨100, 1, "u0", 7, 0, false⟩], [⟨"u2", 6, 0⟩, ⟨"$", 1, 0⟩], [⟨"k", none⟩], [⟨"k", "a", false⟩]⟩),
+    (3, ⟨3, false, [⟨2, 0, "u2", 6, 0, false⟩], [⟨"u3", 6, 0⟩], [], []⟩),
+    (4, ⟨4, false, [⟨100, 2, "u0", 4, 0, false⟩], [⟨"u4", 3, 0⟩, ⟨"$", 1, 0⟩], [], []⟩),
+    (5, ⟨5, false, [], [], [⟨"k", some (2, 0)⟩], [⟨"k", "b", false⟩]⟩),
+    (9, ⟨9, true, [], [⟨"miner", 10, 0⟩], [], []⟩),
+    (8, ⟨8, true, [], [⟨"miner2", 10, 0⟩], [], []⟩)],
+  blocks := [(10, ⟨10, some 0, 0, [100], "g"⟩), (11, ⟨11, some 10, 1, [9, 2], "miner"⟩),
+             (12, ⟨12, some 10, 1, [8, 1], "miner2"⟩), (13, ⟨13, some 10, 1, [9, 1, 2], "miner"⟩)] }
+
+private def kS1 : St := (play kEnv {} 0 (kEnv.block 10)).1
+private def kS4 : St := (doTx kEnv (doTx kEnv (doTx kEnv (doTx kEnv kS1 0 1).1 0 2).1 0 3).1 0 4).1
+private def kS5 : St := (play kEnv kS4 0 (kEnv.block 11)).1
+private def kS6 : St := (doTx kEnv kS5 0 5).1
+private def kS7 : St := (walk kEnv kS6 0 12 false).1
+
+private theorem kS1_all : LedgerAll kEnv kS1 [100] := by
+  have := play_LedgerAll kEnv {} 0 (kEnv.block 10) [] (LedgerAll_genesis kEnv) (by decide) (by decide) (by decide)
+    (by decide) (by decide)
+  rw [if_pos (by decide)] at this
+  exact this
+
+private theorem kS4_all : LedgerAll kEnv kS4 [100] := by
+  have g2 := doTx_LedgerAll kEnv kS1 0 1 [100] kS1_all (fun _ => by decide)
+  have g3 := doTx_LedgerAll kEnv _ 0 2 [100] g2 (fun _ => by decide)
+  have g4 := doTx_LedgerAll kEnv _ 0 3 [100] g3 (fun _ => by decide)
+  exact doTx_LedgerAll kEnv _ 0 4 [100] g4 (fun _ => by decide)
+
+private theorem kS5_ok : (play kEnv kS4 0 (kEnv.block 11)).2 = .ok := by decide
+
+private theorem kS5_all : LedgerAll kEnv kS5 [100, 9, 2] := by
+  have := play_LedgerAll kEnv kS4 0 (kEnv.block 11) [100] kS4_all (by decide) (by decide) (by decide) (by decide)
+    (by decide)
+  rw [if_pos kS5_ok] at this
+  exact this
+
+private theorem kS6_all : LedgerAll kEnv kS6 [100, 9, 2] :=
+  doTx_LedgerAll kEnv kS5 0 5 [100, 9, 2] kS5_all (fun _ => by decide)
+
+private theorem kS7_ok : (walk kEnv kS6 0 12 false).2 = true := by decide
+
+private theorem kS7_all : LedgerAll kEnv kS7 [100, 8, 1] := by
+  obtain ⟨C', c1, c2⟩ := walk_LedgerK kEnv kS6 0 12 false [100, 9, 2] [100] kS6_all (by decide) (by decide) (by decide)
+    (by decide)
+  have hC : C' = [100, 8, 1] := (c2 kS7_ok).trans (by decide)
+  rw [hC] at c1
+  exact c1
+
+example :
+    kS4.pool = [1, 2, 3, 4] ∧ (play kEnv kS4 0 (kEnv.block 11)).2 = .ok ∧ kS5.pool = [4] ∧ kS6.pool = [4, 5] ∧
+    (walk kEnv kS6 0 12 false).2 = true ∧ kS7.pool = [4] ∧ kS7.pointer = 12 ∧
+    LedgerAll kEnv kS4 [100] ∧ LedgerAll kEnv kS5 [100, 9, 2] ∧ LedgerAll kEnv kS6 [100, 9, 2] ∧
+    LedgerAll kEnv kS7 [100, 8, 1] ∧
+    XV.C03.supersedes (kEnv.tx 2) "k" none ∧ XV.C03.supersedes (kEnv.tx 5) "k" (some (2, 0)) ∧
+    curVer kS4 "k" = some (2, 0) ∧ curVer kS6 "k" = some (5, 0) ∧ curVer kS7 "k" = none :=
+  ⟨by decide, kS5_ok, by decide, by decide, kS7_ok, by decide, by decide, kS4_all, kS5_all, kS6_all, kS7_all,
+   ⟨⟨_, List.mem_cons_self, rfl⟩, ⟨_, List.mem_cons_self, rfl, rfl⟩⟩,
+   ⟨⟨_, List.mem_cons_self, rfl⟩, ⟨_, List.mem_cons_self, rfl, rfl⟩⟩, by decide, by decide, by decide⟩
+
+-- `play_block_order_kin` on the accepted block 11, and `no_double_supersede` at the state with two superseding writers
+example : (kEnv.block 11).txs.Pairwise (fun a c => ∀ ki ∈ (kEnv.tx a).kin, ∀ v, ki.ver = some v → v.1 ≠ c) :=
+  play_block_order_kin kEnv kS4 0 (kEnv.block 11) [100] kS4_all.2 kS5_ok (by decide) (by decide) (by decide) (by decide)
+
+example : ∀ k v, XV.C03.supersedes (kEnv.tx 2) k v → ¬ XV.C03.supersedes (kEnv.tx 5) k v :=
+  (no_double_supersede kS6_all.2).1 2 (by decide) 5 (by decide) (by decide)
+
+-- non-vacuity of `playForMiner_LedgerK`: from the pool [1, 2] the miner packs block 13 = [9, 1, 2] (reader before overwriter)
+private def kM2 : St := (doTx kEnv (doTx kEnv kS1 0 1).1 0 2).1
+
+private theorem kM2_all : LedgerK kEnv kM2 [100] := by
+  have g2 := doTx_LedgerK kEnv kS1 0 1 [100] kS1_all.2 (fun _ => by decide)
+  exact doTx_LedgerK kEnv _ 0 2 [100] g2 (fun _ => by decide)
+
+private theorem kM2_ok : (playForMiner kEnv kM2 0 (kEnv.block 13)).2 = .ok := by decide
+
+example :
+    kM2.pool = [1, 2] ∧ (playForMiner kEnv kM2 0 (kEnv.block 13)).2 = .ok ∧ LedgerK kEnv kM2 [100] ∧
+    LedgerK kEnv (playForMiner kEnv kM2 0 (kEnv.block 13)).1 [100, 9, 1, 2] ∧
+    curVer (playForMiner kEnv kM2 0 (kEnv.block 13)).1 "k" = some (2, 0) := by
+  have g4 : LedgerK kEnv (playForMiner kEnv kM2 0 (kEnv.block 13)).1 [100, 9, 1, 2] := by
+    have := playForMiner_LedgerK kEnv kM2 0 (kEnv.block 13) [100] kM2_all (by decide) (by decide) (by decide)
+      (by decide) (by decide) (by decide) (by decide) (by decide)
+    rw [if_pos kM2_ok] at this
+    exact this
+  exact ⟨by decide, kM2_ok, kM2_all, g4, by decide⟩
 
 end XV.C02
